@@ -12,7 +12,7 @@ the qubits it names; `toPGate N` reads a step of the model as such a placed gate
 
 The model describes the code repaired by fixes/C01-1.patch (sorted merged indices),
 fixes/C01-2.patch (scalar conjugate for GLOBALPHASE in density-matrix mode) and
-fixes/C01-3.patch (`state` getter no longer overwrites the internal tensor).
+/repo commit c6903aa (`state` getter no longer overwrites the internal tensor).
 -/
 namespace QipVerif.C01
 open QipVerif.SimKet QipVerif.Embed Matrix
